@@ -594,6 +594,8 @@ def main(tier, seed, scale=1.0):
     res.update({cid: res_hs[cid] for cid in hs_slow[:3]})
     inputs = inputs + [(cid, t) for cid, t in hs if cid not in hs_slow[3:]]
     chk.extra["helper_string_inputs"] = len(hs)
+    # (inputs beyond the first three that did not finish in their batch are not re-run one by one: reported, never a verdict)
+    chk.extra["helper_string_slow_not_isolated"] = len(hs_slow[3:])
     hung = set(hs_slow[3:])
     dbg_sample = [c for i, c in enumerate(inputs) if (i % 10 == 0 or c[0].startswith("h")) and c[0] not in hs_slow]
     res_dbg = B.run_inproc(dbg_sample, items=False, profile="debug", timeout=300)
